@@ -358,6 +358,14 @@ def corpus():
         blk({'z': {'k': 'arb', 'delay': 0, 'w': [-25, -32, -20], 'first': -20, 'last': -16}}),
         blk({'z': {'k': 'ext', 'delay': 0, 'tt': [0, 4], 'vals': [-16, 0]}}),
     ]})
+    # regression (fixed defect, /repo 3807129): an extended trapezoid whose corners are exactly one raster apart was
+    # stored as a raster-sampled arbitrary gradient, shifted by half a raster and one raster longer than its block
+    cs.append({'raster_us': 10, 'max_grad': 1703040.0, 'max_slew': 7237920000.0, 'blocks': [
+        blk({'x': {'k': 'ext', 'delay': 0, 'tt': [0, 1, 2], 'vals': [0, -50, 0]},
+             'y': {'k': 'ext', 'delay': 3, 'tt': [0, 1, 2, 3], 'vals': [0, 40, 40, 10]}}),
+        blk({'x': {'k': 'trap', 'amp': 20, 'rise': 1, 'flat': 2, 'fall': 1, 'delay': 0},
+             'y': {'k': 'ext', 'delay': 0, 'tt': [0, 1], 'vals': [10, 0]}}),
+    ]})
     return cs
 
 
